@@ -754,32 +754,78 @@ func c11BufInit(c *Ctx) {
 		}
 		return false
 	}
+	// a callee of this package "releases" when each of its exits has released the writer or has seen the flag cleared
+	// (the bookkeeping may live in a helper: the hand-shake is the same)
+	relMemo := map[*ssa.Function]int{}
+	var releases func(g *ssa.Function, depth int) bool
+	isRelease := func(in ssa.Instruction, depth int) bool {
+		ci, ok := in.(ssa.CallInstruction)
+		if !ok {
+			return false
+		}
+		if calleeID(ci.Common()) == tT+"ackBufInit" || isCancelWithError(in) {
+			return true
+		}
+		if _, isGo := in.(*ssa.Go); isGo {
+			return false
+		}
+		g := ci.Common().StaticCallee()
+		return g != nil && c.inPkg(g) && len(g.Blocks) > 0 && releases(g, depth+1)
+	}
+	releases = func(g *ssa.Function, depth int) bool {
+		if depth > 2 {
+			return false
+		}
+		if v, ok := relMemo[g]; ok {
+			return v == 1
+		}
+		relMemo[g] = 0
+		hit, _ := reachFromE(g.Blocks[0], 0, isReturn, func(in ssa.Instruction) bool { return isRelease(in, depth) }, cleared)
+		if hit == nil {
+			relMemo[g] = 1
+		}
+		return hit == nil
+	}
 	n := 0
-	for _, b := range af.Blocks {
-		i := blockIf(b)
-		if i == nil || !isPhaseLoad(normFact(fact{V: i.Cond, Pol: true}).V) {
+	// the stage body and, in call order, the helpers it hands the bookkeeping to
+	scope := []*ssa.Function{af}
+	for _, ci := range callsIn(af, anyID) {
+		if _, isGo := ci.(*ssa.Go); isGo {
 			continue
 		}
-		k := 0
-		if !normFact(fact{V: i.Cond, Pol: true}).Pol {
-			k = 1
+		if g := ci.Common().StaticCallee(); g != nil && c.inPkg(g) && len(g.Blocks) > 0 && g != af && calleeID(ci.Common()) != tT+"ackBufInit" {
+			has := false
+			for _, x := range callsIn(g, anyID) {
+				if isAtomicOnField(x, "bufInitPhase", "Load") {
+					has = true
+				}
+			}
+			if has {
+				scope = append(scope, g)
+			}
 		}
-		n++
-		hit, path := reachFromE(b.Succs[k], 0, func(in ssa.Instruction) bool { return in == next || isReturn(in) }, func(in ssa.Instruction) bool {
-			ci, ok := in.(ssa.CallInstruction)
-			return ok && (calleeID(ci.Common()) == tT+"ackBufInit" || isCancelWithError(in))
-		}, func(from, to *ssa.BasicBlock) bool { return cleared(from, to) || ctxErrEdge(from, to) })
-		c.check(hit == nil, fmt.Sprintf("pipelineRecvAck/init-phase-ack.%d", n), c.ipos(i), "once the init-phase flag was read as set, the writer's token is released before the next ack is taken (or a later read found the flag cleared)", "an ack can be consumed in the init phase without releasing the writer: the encoder waits for a token that never comes", c.pathStr(path)...)
+	}
+	for _, sf := range scope {
+		for _, b := range sf.Blocks {
+			i := blockIf(b)
+			if i == nil || !isPhaseLoad(normFact(fact{V: i.Cond, Pol: true}).V) {
+				continue
+			}
+			k := 0
+			if !normFact(fact{V: i.Cond, Pol: true}).Pol {
+				k = 1
+			}
+			n++
+			hit, path := reachFromE(b.Succs[k], 0, func(in ssa.Instruction) bool { return in == next || isReturn(in) }, func(in ssa.Instruction) bool { return isRelease(in, 0) }, func(from, to *ssa.BasicBlock) bool { return cleared(from, to) || ctxErrEdge(from, to) })
+			c.check(hit == nil, fmt.Sprintf("pipelineRecvAck/init-phase-ack.%d", n), c.ipos(i), "once the init-phase flag was read as set, the writer's token is released before the next ack is taken (or a later read found the flag cleared)", "an ack can be consumed in the init phase without releasing the writer: the encoder waits for a token that never comes", c.pathStr(path)...)
+		}
 	}
 	if n < 2 {
 		c.undecided("pipelineRecvAck/init-phase-reads", "fewer reads of the init-phase flag than expected")
 	}
 	// ... and no ack is consumed without looking at the flag at all: from taking an ack to taking the next one, every
 	// path releases the writer, or sees the flag cleared, or leaves (cancel / cancelled context / return)
-	hit, path := reachFromE(next.Block(), instrIndex(next)+1, func(in ssa.Instruction) bool { return in == next }, func(in ssa.Instruction) bool {
-		ci, ok := in.(ssa.CallInstruction)
-		return ok && (calleeID(ci.Common()) == tT+"ackBufInit" || isCancelWithError(in))
-	}, func(from, to *ssa.BasicBlock) bool { return cleared(from, to) || ctxErrEdge(from, to) })
+	hit, path := reachFromE(next.Block(), instrIndex(next)+1, func(in ssa.Instruction) bool { return in == next }, func(in ssa.Instruction) bool { return isRelease(in, 0) }, func(from, to *ssa.BasicBlock) bool { return cleared(from, to) || ctxErrEdge(from, to) })
 	c.check(hit == nil, "pipelineRecvAck/every-ack-looks-at-init-phase", c.ipos(next), "between two acks every path releases the waiting writer or observes that the init phase is over", "an ack can be consumed without releasing the writer and without checking whether it is waiting (a pause during size probing hangs the transfer)", c.pathStr(path)...)
 }
 
